@@ -75,9 +75,11 @@ func (w *worker) run(ctx context.Context, timeout time.Duration, resultCh chan<-
 	skipped := 0
 
 	for curr := w.state.from; curr <= w.state.to; curr++ {
+		verifWorker(w, "at", curr, nil)
 		err := w.sample(ctx, timeout, curr)
 		if errors.Is(err, context.Canceled) {
 			// sampling worker will resume upon restart
+			verifWorker(w, "silentExit", curr, err)
 			return
 		}
 		if errors.Is(err, availability.ErrOutsideSamplingWindow) {
@@ -99,9 +101,11 @@ func (w *worker) run(ctx context.Context, timeout time.Duration, resultCh chan<-
 		)
 	}
 
+	verifWorker(w, "finished", w.state.to, nil)
 	select {
 	case resultCh <- w.state.result:
 	case <-ctx.Done():
+		verifWorker(w, "dropped", w.state.to, nil)
 	}
 }
 
@@ -195,6 +199,7 @@ func (w *worker) setResult(curr uint64, err error) {
 		w.state.err = errors.Join(w.state.err, fmt.Errorf("height: %d, err: %w", curr, err))
 	}
 	w.state.curr = curr
+	verifWorker(w, "set", curr, err)
 }
 
 func (w *worker) getState() workerState {
